@@ -100,6 +100,7 @@ type pipeRun struct {
 
 // replay drives one fresh Conn over the streams.
 func (ps *pipeStreams) replay(chunks []int, readBuf int, cutAt int, cutErr error, wsplit []int, wErrAt int) *pipeRun {
+	core.Beat()
 	pr := &pipeRun{}
 	sc := simnet.NewScript(ps.c)
 	sc.Chunks = chunks
